@@ -200,6 +200,13 @@ void ReturnHandler::handle_identifier_return(const ASTNode *node) {
             }
             throw ReturnException(*self_var);
         }
+        // self of an impl for a primitive / typedef'd primitive type
+        if (self_var && self_var->type == TYPE_STRING) {
+            throw ReturnException(self_var->str_value);
+        }
+        if (self_var) {
+            throw ReturnException(self_var->value);
+        }
     } else {
         Variable *var = interpreter_->find_variable(node->left->name);
         if (var) {
